@@ -997,6 +997,26 @@ def run(ck):
             m, p = (int(v) for v in rng.integers(1, 7, 2))
             c = gen_pf_case(rng, n, m, p, N=N)
             pf_linear_case(ck, rng, c, int(N), "single", f"{int(N)}/{j}")
+    # sharp sensor / vague prior (R six orders of magnitude below the spread of the particles, measurement possibly far out): every
+    # particle's likelihood underflows in linear scale; the filter still returns a finite estimate with a valid covariance
+    # (the effective sample size is far too small for the Monte-Carlo band: only validity is judged)
+    for j, rng in items(ck, "pf/sharp", 24 if th else 6):
+        n = 1 + j % 3
+        p = n
+        c = gen_case(rng, n, 1, p, c_kind="full", scales=(1.0, 1.0, 1e-6), outlier=None)
+        if j % 2:
+            c = dict(c, y=c["y"] + 30.0)
+        N = int((2e3, 2e4)[j % 2])
+        wit = lambda **kw: witness(c, particles=N, **kw)
+        out = pf_call(ck, "pf_lin", f"sharp-sensor/N:{cls_N(N)}/n{n}", c, LinNLS(c["sys"]), N, ck.subseed(f"pf/sharp/{j}"), wit)
+        ck.count("pf_lin", f"sharp-sensor/N:{cls_N(N)}/n{n}", key=("sharp", j, n, N))
+        if out is not None:
+            fin = bool(torch.isfinite(out[0]).all() and torch.isfinite(out[1]).all())
+            ck.check(fin, "pf_lin", f"sharp-sensor/N:{cls_N(N)}/n{n}", "PF.forward", "non_finite_estimate_with_a_sharp_sensor", wit)
+            if fin:
+                judge_pf_cov(ck, f"sharp/N:{cls_N(N)}", c, out[1], wit)
+            ck.mark("pf/sharp-sensor")
+    ck.require("pf/sharp-sensor")
     plan = [(1e3, 600), (1e4, 400), (1e5, 160), (1e6, 16)] if th else [(1e3, 40), (1e4, 32), (1e5, 12)]
     for N, cnt in plan:
         for j, rng in items(ck, f"pfnl/{int(N)}", cnt):
